@@ -14,7 +14,6 @@
   switches do not happen (answers stay correct, DESIGN §5 C07) — modelled as written.
 -/
 import AHP.Model.Search
-import AHP.Model.Builder
 namespace AHP.G3
 /-! ### association lists standing for dicts -/
 
@@ -167,8 +166,10 @@ end Idx
 
 Additions for C03 ("indexing at creation never fails"); nothing above changes.  `indexOther` above answers
 `other` where the code would raise KeyError (`parser._otherAttributeIndexes[attributeName]` with the key
-missing).  The variants below keep that failure (`none`), and the handlers of `IndexedAdvancedHTMLParser`
-are written over the token sequence: the inherited handler of the plain parser, then `_indexTag(newTag)`. -/
+missing).  The variants below keep that failure (`none`).  The handlers of `IndexedAdvancedHTMLParser` over the
+token sequence (the inherited handler of the plain parser, then `_indexTag(newTag)`) are in
+`Lemmas/TotalIndexModel.lean`: this file cannot import `Model/Builder.lean` without re-resolving `Node` in the
+C06/C07 files. -/
 
 namespace Idx
 
@@ -201,73 +202,6 @@ def indexTagE (i : Idx) (e : Elem) : Option Idx :=
   (indexOthersLE e i.otherFns i.other).map (fun o => { i with other := o })
 
 end Idx
-
-/-- how a handler of the indexed parser can end: an exception of the inherited handler, or a KeyError out of
-    `_indexTag` -/
-inductive PErr where
-  | raised (e : Exc)
-  | keyError
-  deriving Repr, DecidableEq, Inhabited
-
-/-- The indexed parser while it parses: the inherited tree state, the index, and (ghost) the elements
-    `_indexTag` was called on so far, in creation order. -/
-structure IState where
-  tree : TState
-  idx : Idx
-  made : List Elem
-  deriving Inhabited
-
-/-- `IndexedAdvancedHTMLParser.handle_starttag`: `newTag = AdvancedHTMLParser.handle_starttag(…)`, then
-    `self._indexTag(newTag)`.  `view k name attrs` is what the index functions read of the `k`-th element
-    created (`getAttribute`, `classNames`, `tagName` right after construction) — a parameter: the statements
-    hold for every such reading. -/
-def idxStart (view : Nat → Str → List Attr → Elem) (st : IState) (n : Str) (a : List Attr) (sc : Bool) :
-    Except PErr IState :=
-  match handleStart st.tree n a sc with
-  | .ok s' =>
-    let e := view st.made.length (lower n) a
-    match st.idx.indexTagE e with
-    | some i' => .ok ⟨s', i', st.made ++ [e]⟩
-    | none => .error .keyError
-  | o => .error (.raised o.exc)
-
-/-- one tokenizer callback of the indexed parser (only `handle_starttag` is overridden) -/
-def idxStep (view : Nat → Str → List Attr → Elem) (st : IState) : Token → Except PErr IState
-  | .start n a => idxStart view st n a false
-  | .startend n a => idxStart view st n a true
-  | t =>
-    match stepT st.tree t with
-    | .ok s' => .ok { st with tree := s' }
-    | o => .error (.raised o.exc)
-
-def idxRun (view : Nat → Str → List Attr → Elem) (st : IState) : List Token → Except PErr IState
-  | [] => .ok st
-  | t :: ts =>
-    match idxStep view st t with
-    | .ok st' => idxRun view st' ts
-    | .error e => .error e
-
-/-- `IndexedAdvancedHTMLParser._reset`: the inherited `_reset`, then `_resetIndexInternal` -/
-def IState.reset (st : IState) : IState := ⟨TState.init, st.idx.resetInternal, []⟩
-
-/-- the state a pass leaves behind (as `AHP.runS`): the state before the offending token -/
-def idxRunS (view : Nat → Str → List Attr → Elem) (st : IState) : List Token → IState × Option PErr
-  | [] => (st, none)
-  | t :: ts =>
-    match idxStep view st t with
-    | .ok st' => idxRunS view st' ts
-    | .error e => (st, some e)
-
-/-- `feed` of the indexed parser on the object as it is: the pass; on MultipleRootNodeException `self.reset()`
-    (which also empties the index) and the wrapped text -/
-def idxFeedS (view : Nat → Str → List Attr → Elem) (st : IState) (toks : List Token) : IState × Option PErr :=
-  match idxRunS view st toks with
-  | (st1, some (.raised .multipleRoot)) => idxRunS view st1.reset (wrapToks toks)
-  | r => r
-
-/-- `parseStr`: `self.reset()`, then `feed` -/
-def idxParseStrS (view : Nat → Str → List Attr → Elem) (st : IState) (toks : List Token) : IState × Option PErr :=
-  idxFeedS view st.reset toks
 
 /-! ### the parent chain -/
 
